@@ -154,7 +154,7 @@ def _mesh(seed):
 
 def _system(seed):
     """small linear (Laplace + source) problem; returns (system, constraints, arguments)"""
-    key = ('system', seed % 3)
+    key = ('system', seed % 30)       # mesh (seed%3), degree (seed%2) and source term (seed%5) all enter
     if key not in _memo:
         from nutils import solver
         from nutils.expression_v2 import Namespace
@@ -212,7 +212,7 @@ def build_value(kind, seed):
             colidx = numpy.array([[0, 1], [0, 1]])
         return matrix.assemble_csr(rng.normal(size=2 * n), rowptr, colidx.ravel(), n)
     if kind == 'solve':
-        key = ('solved', seed % 3)
+        key = ('solved', seed % 30)
         if key not in _memo:
             sys_, cons_, args = _system(seed)
             with treelog.set(_Null()), cache.disable():
